@@ -1177,7 +1177,10 @@ fn lower_expr_with_args(
                         }
                     }
                     other => {
-                        if matches!(&other, cst::Expr::CallExpr(_) | cst::Expr::ClosureExpr(_)) {
+                        // Only a prefix or binary operator node takes the call's arguments inward
+                        // (`-f(x)` is `-(f(x))`); every other callee — a parenthesised expression,
+                        // a call, a closure — is complete and is called as it stands.
+                        if !matches!(&other, cst::Expr::PrefixExpr(_) | cst::Expr::BinaryExpr(_)) {
                             let func_expr = lower_expr(ctx, other)?;
                             let call = ast::Expr::ECall {
                                 func: Box::new(func_expr),
